@@ -93,6 +93,12 @@ func c15Files(set int) []*tnode {
 		return []*tnode{{Name: "a.go", Kind: "file"}, {Name: "b.txt", Kind: "file"}, {Name: "c.go", Kind: "linkfile"}, {Name: ".x.go", Kind: "file"}}
 	case 3:
 		return []*tnode{{Name: ".x.go", Kind: "file"}, {Name: "b.txt", Kind: "file"}, {Name: "z_test.go", Kind: "file"}}
+	case 5:
+		// things that are named like Go files or hold Go files but are neither: a named pipe, a link to one,
+		// directories whose names end in .go and start like excluded ones
+		return []*tnode{{Name: "a.go", Kind: "file"}, {Name: "p.go", Kind: "fifo"}, {Name: "q.go", Kind: "linkfifo"},
+			{Name: "_u.go", Kind: "dir", Kids: []*tnode{{Name: "a.go", Kind: "file"}}}, {Name: ".h.go", Kind: "dir", Kids: []*tnode{{Name: "a.go", Kind: "file"}}},
+			{Name: "pkg.go", Kind: "dir", Kids: []*tnode{{Name: "a.go", Kind: "file"}}}, {Name: "z.go", Kind: "file"}}
 	default:
 		// a dangling symlink with an excluded-style name (editor lock file) between regular files
 		return []*tnode{{Name: ".#m.go", Kind: "danglink"}, {Name: "_s.go", Kind: "linkfile"}, {Name: "a.go", Kind: "file"}, {Name: "testdata.go", Kind: "file"}, {Name: "z.go", Kind: "file"}}
@@ -121,6 +127,7 @@ func c15ChildVariants(name string, nested bool) []*tnode {
 			vs = append(vs, c15Dir(name, c15Files(1), c15Dir(k, c15Files(1))))
 			vs = append(vs, c15Dir(name, c15Files(4), c15Dir(k, c15Files(4)), c15Dir("zz", c15Files(1))))
 		}
+		vs = append(vs, c15Dir(name, c15Files(5)))
 		// depth 3 below an ordinary directory
 		vs = append(vs, c15Dir(name, nil, c15Dir("sub", c15Files(1), c15Dir("vendor", c15Files(1)), c15Dir("ok", c15Files(1)))))
 	}
@@ -229,6 +236,7 @@ func c15Gen(tier string, emit func(any)) {
 			if strings.HasPrefix(a, "$ABS") {
 				continue
 			}
+			emit(&C15Case{Tree: t, Args: []string{a}, Via: "ancestors"})
 			emit(&C15Case{Tree: t, Args: []string{a}, Via: "cwd"})
 			emit(&C15Case{Tree: t, Args: []string{a}, Via: "ancestor"})
 		}
@@ -384,11 +392,12 @@ func c15Expected(t *tnode, args []string) []string {
 	return out
 }
 
-func c15Materialize(t *tnode, root string) map[string]string {
+func c15Materialize(t *tnode, root, workRel string) map[string]string {
 	files := map[string]string{
 		"outside/o.go":    c15Src,
 		"outside/h.go":    c15Src,
 		"outside/od/p.go": c15Src,
+		"outside/pipe":    "|fifo",
 		"p.patch":         c15Patch,
 	}
 	var walk func(n *tnode, rel string)
@@ -405,6 +414,10 @@ func c15Materialize(t *tnode, root string) map[string]string {
 				files[p] = "->" + root + "/outside/od"
 			case "danglink":
 				files[p] = "->" + root + "/outside/nonexistent"
+			case "fifo":
+				files[p] = "|fifo"
+			case "linkfifo":
+				files[p] = "->" + root + "/outside/pipe"
 			case "hlfile": // a regular file with a second name outside the tree
 				files[p] = "=>" + root + "/outside/h.go"
 			case "linkup": // a symbolic link to an ancestor: following it never ends
@@ -416,7 +429,7 @@ func c15Materialize(t *tnode, root string) map[string]string {
 			}
 		}
 	}
-	walk(t, "work")
+	walk(t, workRel)
 	files["wlink"] = "->work"
 	return files
 }
@@ -492,14 +505,18 @@ func c15Run(env *core.Env, ci any) core.Outcome {
 			return out
 		}
 		root := env.Scratch + "/c15"
-		sb := newSandbox(env, "c15", c15Materialize(c.Tree, root))
+		workRel := "work"
+		if c.Via == "ancestors" { // the tree lives below directories with excluded-style names
+			workRel = ".ci/_stage/testdata/vendor/work"
+		}
+		sb := newSandbox(env, "c15", c15Materialize(c.Tree, root, workRel))
 		defer sb.remove()
 		before := sb.snap("")
 		args := []string{"-p", sb.path("p.patch"), "-v"}
 		for _, a := range c.Args {
-			args = append(args, strings.ReplaceAll(a, "$ABS", sb.path("work")))
+			args = append(args, strings.ReplaceAll(a, "$ABS", sb.path(workRel)))
 		}
-		cwd := "work"
+		cwd := workRel
 		switch c.Via {
 		case "cwd":
 			cwd = "wlink"
@@ -520,7 +537,7 @@ func c15Run(env *core.Env, ci any) core.Outcome {
 		after := sb.snap("")
 		exp := map[string]bool{}
 		for _, p := range expected {
-			exp["work/"+p] = true
+			exp[workRel+"/"+p] = true
 		}
 		for p, ea := range after {
 			eb, ok := before[p]
@@ -550,7 +567,7 @@ func c15Run(env *core.Env, ci any) core.Outcome {
 		rest := strings.ReplaceAll(r.Stdout, sb.path("wlink"), sb.path("work"))
 		for _, p := range expected {
 			var ok bool
-			if rest, ok = cutLogLine(rest, sb.path("work/"+p)); !ok {
+			if rest, ok = cutLogLine(rest, sb.path(workRel+"/"+p)); !ok {
 				return bad("order-or-log", "-v log: expected a line about %s next, log is %q", p, r.Stdout)
 			}
 		}
